@@ -186,11 +186,11 @@ func Verif_C05_garbage_then_other_peer() {
 	verifQuiesce()
 	state := verifChoose("state", 3)
 	if state >= stOpenConfirm {
-		a.send(openMessageType, mkOpenBody(65001, 90, 0x0a000002))
+		a.send(verifMsgOpen, mkOpenBody(65001, 90, 0x0a000002))
 		verifQuiesce()
 	}
 	if state >= stEstablished {
-		a.send(keepAliveMessageType, nil)
+		a.send(verifMsgKeepalive, nil)
 		verifQuiesce()
 	}
 	hdr := verifBuf("header", 19, 19)
@@ -237,20 +237,20 @@ func Verif_C05_garbage_behind_session_ending_message() {
 	verifQuiesce()
 	state := verifChoose("state", 3)
 	if state >= stOpenConfirm {
-		a.send(openMessageType, mkOpenBody(65001, 90, 0x0a000002))
+		a.send(verifMsgOpen, mkOpenBody(65001, 90, 0x0a000002))
 		verifQuiesce()
 	}
 	if state >= stEstablished {
-		a.send(keepAliveMessageType, nil)
+		a.send(verifMsgKeepalive, nil)
 		verifQuiesce()
 	}
 	hdr := verifBuf("header", 19, 19)
 	tail := verifBuf("tail", 0, 2)
 	verifDelayBound(1)
 	if state == stOpenSent {
-		a.chunks = append(a.chunks, mkFrame(keepAliveMessageType, nil))
+		a.chunks = append(a.chunks, mkFrame(verifMsgKeepalive, nil))
 	} else {
-		a.chunks = append(a.chunks, mkFrame(openMessageType, mkOpenBody(65001, 90, 0x0a000002)))
+		a.chunks = append(a.chunks, mkFrame(verifMsgOpen, mkOpenBody(65001, 90, 0x0a000002)))
 	}
 	a.chunks = append(a.chunks, hdr)
 	if len(tail) > 0 {
